@@ -48,7 +48,9 @@ SPEC = dict(
          "(built) every tree built on an empty document or on a parsed DTD-bearing base document by <= n construction steps over {4 doctype forms, 6 element names "
          "(a, p:a bound, q:a unbound, default-ns a{ud}, U+00E9, p:b), UP, 4 attribute names (x, p:x, q:x, q:y in another namespace) x data, Text/CDATA/Comment/PI x data, "
          "EntityReference e} with a 4-string data list (n<=2: all 288 configurations; n<=3 over a 22-step 'mini' alphabet: 90 'core' configurations; "
-         "thorough adds n<=3 over the full 46-step alphabet and n<=4 over the mini alphabet, both under the 18 default-feature configurations); (data) <a> holding one Text / CDATA / Comment / PI / attribute value / "
+         "thorough adds n<=3 over the full 46-step alphabet and n<=4 over the mini alphabet, both under the 18 default-feature configurations); (nsnest) every chain of depth <= 3 (thorough 4) of API-built elements {a, a{urn:a}, a{urn:b}, p:a{urn:a}, "
+         "p:a{urn:b}} x attribute {none, p:x{urn:a}, p:x{urn:b}} without any xmlns attribute (90 core configurations): every declaration in the output comes from namespace fix-up, "
+         "and a prefix / the default namespace is bound, re-bound further down and needed with the first binding again; (data) <a> holding one Text / CDATA / Comment / PI / attribute value / "
          "Text+CDATA+Text with every string of <= k symbols (k=2: 343 strings under all 288 configurations; thorough adds k=3: 6175 strings under the 90 core configurations) over {x < & > \" ' CR LF TAB ]]> ]] -- ?> U+00E9 U+20AC U+10000 U+0085 U+0001}. "
          "Configurations: 8 encodings {UTF-8, UTF-16, UTF-16BE, ISO-8859-1, US-ASCII, Windows-1252, IBM1140, ISO-8859-15} x {xml-declaration, split-cdata-sections, "
          "discard-default-content, byte-order-mark} on/off x XML 1.0/1.1 (setXmlVersion) for write() to a MemBufFormatTarget, and the 32 feature/version combinations for "
@@ -89,8 +91,10 @@ SPEC = dict(
             dict(name="parsed-k3-core", driver="c12_ser", args=["--space", "parsed", "--k", 3, "--configs", "core", "--witness", 0, "--deadline", 75] + _T + _K),
             dict(name="built-n2-full", driver="c12_ser", args=["--space", "built", "--steps", 2, "--deadline", 45] + _T + _K),
             dict(name="built-n3-mini-core", driver="c12_ser", args=["--space", "built", "--steps", 3, "--dataset", "mini", "--configs", "core", "--witness", 0, "--deadline", 75] + _T + _K),
+            dict(name="nsnest-d3-core", driver="c12_ser", args=["--space", "nsnest", "--steps", 3, "--configs", "core", "--witness", 0, "--deadline", 60] + _T + _K),
         ],
         thorough=[
+            dict(name="nsnest-d4-core", driver="c12_ser", args=["--space", "nsnest", "--steps", 4, "--configs", "core", "--witness", 0, "--deadline", 600] + _T + _K),
             dict(name="params", driver="c12_ser", args=["--space", "params"] + _K),
             dict(name="fmt", driver="c12_ser", args=["--space", "fmt"] + _K),
             dict(name="data-k2", driver="c12_ser", args=["--space", "data", "--k", 2, "--deadline", 120] + _T + _K),
